@@ -1,5 +1,925 @@
-//! pure-probe suite `lfn` (see /verif/ARCH.md). STUB — to be replaced.
-use crate::util::Tier;
-use std::io::Write;
+//! pure-probe suite `lfn` (see /verif/ARCH.md and lean/FatVerif/Model/LfnDriver.lean for the line formats).
+//!
+//! * `lfn.generate <alloc> <units> <chk>`: `fatfs::verif_dir::lfn_generate` (the crate's `LfnEntriesGenerator`).
+//! * `lfn.readdir <alloc> <root|sub> <slots>`: the slots are planted in a FAT12 image (root directory region resp.
+//!   a cluster-chain sub-directory); the answer comes from the PUBLIC API only: mount, `Dir::iter()`, every accessor
+//!   of every `DirEntry`, `read_volume_label_from_root_dir_as_bytes`.
+//! * `lfn.range <alloc> <slots>`: `offset_range / 32` of every entry, observed through `Dir::remove`.
+use crate::rng::SplitMix64;
+use crate::util::{catch, hex, hex_list, hex_str, hex_units, Tier};
+use fatfs::{FatType, FileSystem, FormatVolumeOptions, FsOptions, StdIoWrapper};
+use std::io::{Cursor, Write};
 
-pub fn run(_tier: Tier, _seed: u64, _out: &mut dyn Write) {}
+const ALLOC: bool = cfg!(feature = "alloc");
+const SECTOR: usize = 512;
+const ROOT_ENTRIES: usize = 64;
+const IMG_SECTORS: usize = 256;
+
+type Slot = [u8; 32];
+
+fn alloc_flag() -> &'static str {
+    if ALLOC {
+        "1"
+    } else {
+        "0"
+    }
+}
+
+/// `lfn_checksum` (input generation only; the implementation computes its own)
+fn sfn_chk(name: &[u8]) -> u8 {
+    let mut c: u8 = 0;
+    for b in &name[..11] {
+        c = (c << 7).wrapping_add(c >> 1).wrapping_add(*b);
+    }
+    c
+}
+
+// ---------------------------------------------------------------------------------------------------------------
+// image
+// ---------------------------------------------------------------------------------------------------------------
+
+struct Img {
+    base: Vec<u8>,
+    data: Vec<u8>,
+    fat_off: usize,
+    fat_len: usize,
+    fats: usize,
+    root_off: usize,
+    data_off: usize,
+    dirty_root: usize,
+    dirty_fat: usize,
+    dirty_data: usize,
+}
+
+impl Img {
+    fn new() -> Img {
+        let mut data = vec![0_u8; IMG_SECTORS * SECTOR];
+        {
+            let mut io = StdIoWrapper::new(Cursor::new(&mut data[..]));
+            let opts = FormatVolumeOptions::new()
+                .fat_type(FatType::Fat12)
+                .bytes_per_sector(SECTOR as u16)
+                .bytes_per_cluster(SECTOR as u32)
+                .max_root_dir_entries(ROOT_ENTRIES as u16)
+                .total_sectors(IMG_SECTORS as u32);
+            fatfs::format_volume(&mut io, opts).expect("format");
+        }
+        let le16 = |o: usize| usize::from(data[o]) | (usize::from(data[o + 1]) << 8);
+        assert_eq!(le16(11), SECTOR);
+        assert_eq!(usize::from(data[13]), 1);
+        let reserved = le16(14);
+        let fats = usize::from(data[16]);
+        assert_eq!(le16(17), ROOT_ENTRIES);
+        let spf = le16(22);
+        let fat_off = reserved * SECTOR;
+        let fat_len = spf * SECTOR;
+        let root_off = fat_off + fats * fat_len;
+        let data_off = root_off + ROOT_ENTRIES * 32;
+        // the formatter may have written a volume-label slot: the base image has an EMPTY root directory
+        for x in &mut data[root_off..data_off] {
+            *x = 0;
+        }
+        Img { base: data.clone(), data, fat_off, fat_len, fats, root_off, data_off, dirty_root: 0, dirty_fat: 0, dirty_data: 0 }
+    }
+
+    fn restore(&mut self) {
+        let (r, n) = (self.root_off, self.dirty_root);
+        self.data[r..r + n].copy_from_slice(&self.base[r..r + n]);
+        for k in 0..self.fats {
+            let o = self.fat_off + k * self.fat_len;
+            let n = self.dirty_fat;
+            self.data[o..o + n].copy_from_slice(&self.base[o..o + n]);
+        }
+        let (d, n) = (self.data_off, self.dirty_data);
+        self.data[d..d + n].copy_from_slice(&self.base[d..d + n]);
+        self.dirty_root = 0;
+        self.dirty_fat = 0;
+        self.dirty_data = 0;
+    }
+
+    fn set_fat12(&mut self, cluster: usize, value: usize) {
+        for k in 0..self.fats {
+            let o = self.fat_off + k * self.fat_len + cluster + cluster / 2;
+            let (b0, b1) = (self.data[o], self.data[o + 1]);
+            if cluster % 2 == 0 {
+                self.data[o] = (value & 0xFF) as u8;
+                self.data[o + 1] = (b1 & 0xF0) | ((value >> 8) & 0x0F) as u8;
+            } else {
+                self.data[o] = (b0 & 0x0F) | ((value & 0x0F) << 4) as u8;
+                self.data[o + 1] = (value >> 4) as u8;
+            }
+        }
+        self.dirty_fat = self.dirty_fat.max(cluster + cluster / 2 + 2);
+    }
+
+    /// slots at the start of the root directory region, the rest zero
+    fn plant_root(&mut self, slots: &[Slot]) {
+        self.restore();
+        assert!(slots.len() <= ROOT_ENTRIES);
+        for (i, s) in slots.iter().enumerate() {
+            let o = self.root_off + 32 * i;
+            self.data[o..o + 32].copy_from_slice(s);
+        }
+        self.dirty_root = slots.len() * 32;
+    }
+
+    /// root = one directory entry `D` → cluster chain 2,3,… holding the slots (rest of the last cluster zero)
+    fn plant_sub(&mut self, slots: &[Slot]) {
+        self.restore();
+        let mut d: Slot = [0; 32];
+        d[..11].copy_from_slice(b"D          ");
+        d[11] = 0x10;
+        d[26] = 2;
+        let o = self.root_off;
+        self.data[o..o + 32].copy_from_slice(&d);
+        self.dirty_root = 32;
+        let clusters = ((slots.len() * 32 + SECTOR - 1) / SECTOR).max(1);
+        for c in 0..clusters {
+            let next = if c + 1 == clusters { 0xFFF } else { 2 + c + 1 };
+            self.set_fat12(2 + c, next);
+        }
+        for (i, s) in slots.iter().enumerate() {
+            let o = self.data_off + 32 * i;
+            self.data[o..o + 32].copy_from_slice(s);
+        }
+        self.dirty_data = clusters * SECTOR;
+    }
+}
+
+// ---------------------------------------------------------------------------------------------------------------
+// the implementation's answer
+// ---------------------------------------------------------------------------------------------------------------
+
+fn entry_token<IO, TP, OCC>(e: &fatfs::DirEntry<'_, IO, TP, OCC>) -> String
+where
+    IO: fatfs::ReadWriteSeek,
+    TP: fatfs::TimeProvider,
+    OCC: fatfs::OemCpConverter,
+{
+    let short = hex(e.short_file_name_as_bytes());
+    let attrs = e.attributes().bits();
+    let (is_dir, is_file) = (e.is_dir(), e.is_file());
+    let len = e.len();
+    let c = e.created();
+    let a = e.accessed();
+    let m = e.modified();
+    let units = match e.long_file_name_as_ucs2_units() {
+        Some(u) => hex_units(u),
+        None => "-".to_string(),
+    };
+    #[cfg(feature = "alloc")]
+    let (fname, sname) = (hex_str(&e.file_name()), hex_str(&e.short_file_name()));
+    #[cfg(not(feature = "alloc"))]
+    let (fname, sname) = ("-".to_string(), "-".to_string());
+    format!(
+        "{}:{}:{}{}:{}:{}.{}.{}.{}.{}.{}.{}:{}.{}.{}:{}.{}.{}.{}.{}.{}.{}:{}:{}:{}",
+        short,
+        attrs,
+        u8::from(is_dir),
+        u8::from(is_file),
+        len,
+        c.date.year,
+        c.date.month,
+        c.date.day,
+        c.time.hour,
+        c.time.min,
+        c.time.sec,
+        c.time.millis,
+        a.year,
+        a.month,
+        a.day,
+        m.date.year,
+        m.date.month,
+        m.date.day,
+        m.time.hour,
+        m.time.min,
+        m.time.sec,
+        m.time.millis,
+        units,
+        fname,
+        sname
+    )
+}
+
+/// mount the image, list the directory, query every accessor
+fn list(img: &mut [u8], sub: bool) -> Result<(Vec<String>, String), String> {
+    let fs = FileSystem::new(Cursor::new(img), FsOptions::new()).map_err(|e| format!("ERR {}", fatfs::verif::error_code(&e)))?;
+    let root = fs.root_dir();
+    let dir = if sub { root.open_dir("D").map_err(|e| format!("ERR {}", fatfs::verif::error_code(&e)))? } else { root };
+    let mut toks = Vec::new();
+    for r in dir.iter() {
+        match r {
+            Ok(e) => toks.push(entry_token(&e)),
+            Err(e) => return Err(format!("ERR {}", fatfs::verif::error_code(&e))),
+        }
+    }
+    let vol = if sub {
+        "-".to_string()
+    } else {
+        match fs.read_volume_label_from_root_dir_as_bytes() {
+            Ok(Some(n)) => hex(&n),
+            Ok(None) => "none".to_string(),
+            Err(e) => return Err(format!("ERR {}", fatfs::verif::error_code(&e))),
+        }
+    };
+    Ok((toks, vol))
+}
+
+fn slots_arg(slots: &[Slot]) -> String {
+    hex_list(&slots.iter().map(|s| s.to_vec()).collect::<Vec<_>>())
+}
+
+fn emit_readdir(out: &mut dyn Write, img: &mut Img, slots: &[Slot], sub: bool) {
+    if sub {
+        img.plant_sub(slots);
+    } else {
+        img.plant_root(slots);
+    }
+    let res = catch(|| list(&mut img.data[..], sub));
+    let rhs = match res {
+        None => "PANIC".to_string(),
+        Some(Err(e)) => e,
+        Some(Ok((toks, vol))) => {
+            let body = if toks.is_empty() { "-".to_string() } else { toks.join(";") };
+            format!("{} {} {}", toks.len(), body, vol)
+        }
+    };
+    writeln!(out, "P lfn.readdir {} {} {} => {}", alloc_flag(), if sub { "sub" } else { "root" }, slots_arg(slots), rhs).unwrap();
+}
+
+fn emit_both(out: &mut dyn Write, img: &mut Img, slots: &[Slot]) {
+    emit_readdir(out, img, slots, false);
+    emit_readdir(out, img, slots, true);
+}
+
+/// `offset_range / 32` of each entry, via `Dir::remove` on a fresh copy of the image per entry
+fn emit_range(out: &mut dyn Write, img: &mut Img, slots: &[Slot]) {
+    img.plant_root(slots);
+    let names: Option<Result<Vec<Vec<u8>>, String>> = catch(|| {
+        let fs = FileSystem::new(Cursor::new(&mut img.data[..]), FsOptions::new()).map_err(|e| format!("ERR {}", fatfs::verif::error_code(&e)))?;
+        let mut v = Vec::new();
+        for r in fs.root_dir().iter() {
+            match r {
+                Ok(e) => v.push(e.short_file_name_as_bytes().to_vec()),
+                Err(e) => return Err(format!("ERR {}", fatfs::verif::error_code(&e))),
+            }
+        }
+        Ok(v)
+    });
+    let rhs = match names {
+        None => "PANIC".to_string(),
+        Some(Err(e)) => e,
+        Some(Ok(names)) => {
+            let mut toks = Vec::new();
+            for n in &names {
+                let mut copy = img.data.clone();
+                let name = String::from_utf8_lossy(n).to_string();
+                let r = catch(|| {
+                    let fs = FileSystem::new(Cursor::new(&mut copy[..]), FsOptions::new()).map_err(|e| fatfs::verif::error_code(&e))?;
+                    let r = fs.root_dir().remove(&name).map_err(|e| fatfs::verif::error_code(&e));
+                    drop(fs);
+                    r
+                });
+                match r {
+                    None => toks.push("PANIC".to_string()),
+                    Some(Err(c)) => toks.push(format!("ERR{}", c)),
+                    Some(Ok(())) => {
+                        let changed: Vec<usize> = (0..slots.len())
+                            .filter(|i| {
+                                let o = img.root_off + 32 * i;
+                                copy[o] == 0xE5 && img.data[o] != 0xE5
+                            })
+                            .collect();
+                        if changed.is_empty() {
+                            toks.push("none".to_string());
+                        } else {
+                            let (lo, hi) = (changed[0], changed[changed.len() - 1] + 1);
+                            if hi - lo == changed.len() {
+                                toks.push(format!("{}:{}", lo, hi));
+                            } else {
+                                toks.push(format!("gap{}:{}", lo, hi));
+                            }
+                        }
+                    }
+                }
+            }
+            if toks.is_empty() {
+                "-".to_string()
+            } else {
+                toks.join(",")
+            }
+        }
+    };
+    writeln!(out, "P lfn.range {} {} => {}", alloc_flag(), slots_arg(slots), rhs).unwrap();
+}
+
+fn emit_generate(out: &mut dyn Write, units: &[u16], chk: u8) {
+    let r = catch(|| fatfs::verif_dir::lfn_generate(units, chk));
+    let rhs = match r {
+        None => "PANIC".to_string(),
+        Some(slots) => hex_list(&slots.iter().map(|s| s.to_vec()).collect::<Vec<_>>()),
+    };
+    writeln!(out, "P lfn.generate {} {} {} => {}", alloc_flag(), hex_units(units), chk, rhs).unwrap();
+}
+
+// ---------------------------------------------------------------------------------------------------------------
+// slot builders
+// ---------------------------------------------------------------------------------------------------------------
+
+fn lfn_slot(order: u8, chk: u8, units: &[u16; 13]) -> Slot {
+    let mut s: Slot = [0; 32];
+    s[0] = order;
+    let offs = [1, 3, 5, 7, 9, 14, 16, 18, 20, 22, 24, 28, 30];
+    for (u, o) in units.iter().zip(offs.iter()) {
+        s[*o] = (*u & 0xFF) as u8;
+        s[*o + 1] = (*u >> 8) as u8;
+    }
+    s[11] = 0x0F;
+    s[13] = chk;
+    s
+}
+
+fn sfn_slot(name: &[u8; 11], attr: u8) -> Slot {
+    let mut s: Slot = [0; 32];
+    s[..11].copy_from_slice(name);
+    s[11] = attr;
+    s
+}
+
+fn rich_sfn(rng: &mut SplitMix64, name: &[u8; 11], attr: u8) -> Slot {
+    let mut s = sfn_slot(name, attr);
+    for i in 12..32 {
+        s[i] = if rng.chance(1, 3) { *rng.pick(&[0_u8, 0xFF, 0x18, 0x08, 0x10, 0x21, 199, 200, 99, 100]) } else { rng.below(256) as u8 };
+    }
+    s
+}
+
+const UNIT_POOL: [u16; 24] = [
+    0x0041, 0x0061, 0x007A, 0x0020, 0x002E, 0x0000, 0xFFFF, 0xFFFE, 0x0001, 0x00E9, 0x0130, 0x017F, 0x4E2D, 0xD7FF, 0xD800, 0xDBFF,
+    0xDC00, 0xDFFF, 0xE000, 0xFFFD, 0x2028, 0x0031, 0x005C, 0x002F,
+];
+
+fn rand_unit(rng: &mut SplitMix64) -> u16 {
+    match rng.below(10) {
+        0..=3 => *rng.pick(&UNIT_POOL),
+        4..=7 => rng.range(0x61, 0x7A) as u16,
+        _ => rng.below(65536) as u16,
+    }
+}
+
+fn rand_units13(rng: &mut SplitMix64) -> [u16; 13] {
+    let mut u = [0_u16; 13];
+    for x in &mut u {
+        *x = rand_unit(rng);
+    }
+    // sometimes a terminator + padding tail
+    if rng.chance(1, 3) {
+        let k = rng.below(13) as usize;
+        u[k] = 0;
+        for x in &mut u[k + 1..] {
+            *x = 0xFFFF;
+        }
+        // a name ending in U+FFFF right before the terminator is the F12 shape: keep it rare
+        if k > 0 && u[k - 1] == 0xFFFF && !rng.chance(1, 64) {
+            u[k - 1] = 0x62;
+        }
+    } else if u[12] == 0xFFFF && !rng.chance(1, 64) {
+        u[12] = 0x63;
+    }
+    u
+}
+
+fn rand_name_units(rng: &mut SplitMix64, len: usize) -> Vec<u16> {
+    (0..len)
+        .map(|_| match rng.below(8) {
+            0 => *rng.pick(&[0x00E9_u16, 0x4E2D, 0xD83D, 0xDE00, 0xFFFD, 0xFFFE]),
+            _ => rng.range(0x61, 0x7A) as u16,
+        })
+        .collect()
+}
+
+fn rand_sfn_name(rng: &mut SplitMix64) -> [u8; 11] {
+    let mut n = *b"           ";
+    match rng.below(12) {
+        0 => {
+            for b in &mut n {
+                *b = rng.below(256) as u8;
+            }
+            if n[0] == 0 || n[0] == 0xE5 {
+                n[0] = b'Q';
+            }
+        }
+        1 => {
+            n[0] = 0x05;
+            n[1] = b'A';
+        }
+        2 => {
+            n = *b".          ";
+        }
+        3 => {
+            n = *b"..         ";
+        }
+        4 => {
+            // empty base, extension only / all blanks
+            if rng.chance(1, 2) {
+                n[8] = b'X';
+            }
+        }
+        _ => {
+            let bl = rng.range(1, 8) as usize;
+            for b in &mut n[..bl] {
+                *b = *rng.pick(b"ABCDEFGHIJKLMNOPQRSTUVWXYZ0123456789_~\x80\xE5 ");
+            }
+            if n[0] == b' ' || n[0] == 0xE5 {
+                n[0] = b'K';
+            }
+            let el = rng.below(4) as usize;
+            for b in &mut n[8..8 + el] {
+                *b = *rng.pick(b"ABCXYZ019~\xFF ");
+            }
+        }
+    }
+    n
+}
+
+/// the slots of a complete run for `units` + checksum, through the crate's own generator
+fn gen_run(units: &[u16], chk: u8) -> Vec<Slot> {
+    fatfs::verif_dir::lfn_generate(units, chk)
+}
+
+// ---------------------------------------------------------------------------------------------------------------
+// streams
+// ---------------------------------------------------------------------------------------------------------------
+
+fn stream_generate(tier: Tier, rng: &mut SplitMix64, out: &mut dyn Write) {
+    let reps = tier.pick(2, 12);
+    for len in 0..=260_usize {
+        for rep in 0..reps {
+            let mut units: Vec<u16> = (0..len).map(|_| rand_unit(rng)).collect();
+            if rep == 0 {
+                // plain ASCII, last unit good
+                units = (0..len).map(|i| 0x61 + (i % 26) as u16).collect();
+            } else if rep == 1 && len > 0 {
+                let k = rng.below(len as u64) as usize;
+                units[len - 1] = *rng.pick(&[0_u16, 0xFFFF, 0x0041]);
+                units[k] = *rng.pick(&[0_u16, 0xFFFF, 0xD800, 0xDC00]);
+            }
+            let chk = match rep {
+                0 => 0,
+                1 => 255,
+                _ => rng.below(256) as u8,
+            };
+            emit_generate(out, &units, chk);
+        }
+    }
+    // one over-long input per build: the fixed buffer indexes out of range (model predicts the panic), the Vec grows
+    let units: Vec<u16> = (0..261).map(|i| 0x41 + (i % 26) as u16).collect();
+    emit_generate(out, &units, 7);
+    let units: Vec<u16> = (0..300).map(|i| 0x41 + (i % 26) as u16).collect();
+    emit_generate(out, &units, 9);
+}
+
+const ORDERS: [u8; 11] = [0x00, 0x01, 0x02, 0x03, 0x41, 0x42, 0x43, 0x14, 0x54, 0x55, 0xE5];
+
+fn pattern_units(pos: usize, terminate: bool) -> [u16; 13] {
+    let mut u = [0x61 + pos as u16; 13];
+    u[12] = 0x30 + pos as u16;
+    if terminate {
+        u[3] = 0;
+        for x in &mut u[4..] {
+            *x = 0xFFFF;
+        }
+    }
+    u
+}
+
+/// exhaustive order/flag/checksum patterns for runs of ≤ 3 long-name slots before a short entry
+fn stream_patterns(tier: Tier, rng: &mut SplitMix64, img: &mut Img, out: &mut dyn Write) {
+    let name = *b"PATTERN TXT";
+    let good = sfn_chk(&name);
+    let bad = good.wrapping_add(1);
+    let sfn = sfn_slot(&name, 0x20);
+    let next = sfn_slot(b"NEXT       ", 0x20);
+    let mut deleted = lfn_slot(0xE5, good, &pattern_units(7, false));
+    deleted[1] = 0x44;
+    let abandoned = [lfn_slot(0x44, good, &[0x58; 13]), lfn_slot(0x03, good, &[0x59; 13])];
+    let mut count = 0_u64;
+    for k in 0..=3_usize {
+        let n_orders = ORDERS.len().pow(k as u32);
+        for oi in 0..n_orders {
+            for cm in 0..(1_usize << k) {
+                let mut run: Vec<Slot> = Vec::new();
+                let mut x = oi;
+                for pos in 0..k {
+                    let order = ORDERS[x % ORDERS.len()];
+                    x /= ORDERS.len();
+                    let chk = if (cm >> pos) & 1 == 0 { good } else { bad };
+                    run.push(lfn_slot(order, chk, &pattern_units(pos, pos == 0)));
+                }
+                // variants: plain / deleted slot inside / preceded by an abandoned longer run / both
+                for variant in 0..4_usize {
+                    count += 1;
+                    // quick tier: everything for ≤ 2 slots; 3-slot patterns with bad checksums and variants subsampled
+                    if tier == Tier::Quick && k == 3 && (variant != 0 || cm != 0) && !rng.chance(1, 8) {
+                        continue;
+                    }
+                    let mut slots: Vec<Slot> = Vec::new();
+                    if variant & 2 != 0 {
+                        slots.extend_from_slice(&abandoned);
+                    }
+                    for (pos, s) in run.iter().enumerate() {
+                        if variant & 1 != 0 && pos == (k + 1) / 2 {
+                            slots.push(deleted);
+                        }
+                        slots.push(*s);
+                    }
+                    if variant & 1 != 0 && k <= 1 {
+                        if k == 0 {
+                            slots.push(deleted);
+                        }
+                    }
+                    slots.push(sfn);
+                    slots.push(next);
+                    let sub = match tier {
+                        Tier::Quick => count % 4 == 0,
+                        Tier::Thorough => true,
+                    };
+                    emit_readdir(out, img, &slots, false);
+                    if sub {
+                        emit_readdir(out, img, &slots, true);
+                    }
+                }
+            }
+        }
+    }
+}
+
+/// every value of every byte of one slot in context (valid 2-slot run + short entry + another short entry)
+fn stream_byte_sweep(tier: Tier, img: &mut Img, out: &mut dyn Write) {
+    let name = *b"SWEEP   BIN";
+    let good = sfn_chk(&name);
+    let mut units: Vec<u16> = (0..20).map(|i| 0x61 + i as u16).collect();
+    units[19] = 0x7A;
+    let run = gen_run(&units, good);
+    assert_eq!(run.len(), 2);
+    let mut sfn = sfn_slot(&name, 0x20);
+    sfn[12] = 0x18;
+    sfn[13] = 150;
+    sfn[14..20].copy_from_slice(&[0x6F, 0x7B, 0x5A, 0x51, 0x5A, 0x51]);
+    sfn[22..26].copy_from_slice(&[0x6F, 0x7B, 0x5A, 0x51]);
+    sfn[28] = 0x39;
+    sfn[29] = 0x30;
+    let next = sfn_slot(b"NEXT       ", 0x10);
+    let base = vec![run[0], run[1], sfn, next];
+    let targets: &[usize] = match tier {
+        Tier::Quick => &[1, 2],
+        Tier::Thorough => &[0, 1, 2],
+    };
+    for &t in targets {
+        for j in 0..32 {
+            for v in 0..=255_u8 {
+                let mut slots = base.clone();
+                slots[t][j] = v;
+                emit_readdir(out, img, &slots, (usize::from(v) + j) % 2 == 1);
+            }
+        }
+    }
+}
+
+/// one random directory of 1–40 slots from a weighted alphabet of mostly valid material
+fn soup(rng: &mut SplitMix64) -> Vec<Slot> {
+    let target = rng.range(1, 40) as usize;
+    let mut slots: Vec<Slot> = Vec::new();
+    while slots.len() < target {
+        let name = rand_sfn_name(rng);
+        let chk = sfn_chk(&name);
+        let attr = *rng.pick(&[0x20_u8, 0x20, 0x20, 0x10, 0x00, 0x01, 0x27, 0x30, 0x16, 0x80 | 0x20, 0x40 | 0x10]);
+        match rng.below(100) {
+            // complete run + short entry
+            0..=29 => {
+                let len = match rng.below(6) {
+                    0 => *rng.pick(&[1_usize, 12, 13, 14, 25, 26, 27]),
+                    _ => rng.range(1, 30) as usize,
+                };
+                let mut units = rand_name_units(rng, len);
+                if rng.chance(1, 200) {
+                    units[len - 1] = *rng.pick(&[0xFFFF_u16, 0]);
+                }
+                let mut run = gen_run(&units, chk);
+                // mutate the run
+                match rng.below(14) {
+                    0 => {
+                        let i = rng.below(run.len() as u64) as usize;
+                        run[i][13] = run[i][13].wrapping_add(1);
+                    }
+                    1 => {
+                        let i = rng.below(run.len() as u64) as usize;
+                        run[i][0] = *rng.pick(&[0x01_u8, 0x41, 0x02, 0x42, 0x54, 0x55, 0x40, 0x60, 0x81, 0xC1, 0x21]);
+                    }
+                    2 => {
+                        let i = rng.below(run.len() as u64) as usize;
+                        run.remove(i);
+                    }
+                    3 => {
+                        let i = rng.below(run.len() as u64) as usize;
+                        let s = run[i];
+                        run.insert(i, s);
+                    }
+                    4 => {
+                        let i = rng.below(run.len() as u64) as usize;
+                        run[i][0] = 0xE5;
+                    }
+                    5 => {
+                        let i = rng.below(run.len() as u64) as usize;
+                        let j = 1 + rng.below(31) as usize;
+                        run[i][j] = rng.below(256) as u8;
+                    }
+                    6 => {
+                        // a longer abandoned run directly before (F18 shape)
+                        let n = rng.range(2, 5) as u8;
+                        let mut pre = vec![lfn_slot(0x40 | n, chk, &rand_units13(rng))];
+                        if rng.chance(1, 2) {
+                            pre.push(lfn_slot(n - 1, chk, &rand_units13(rng)));
+                        }
+                        pre.extend_from_slice(&run);
+                        run = pre;
+                    }
+                    _ => {}
+                }
+                slots.extend_from_slice(&run);
+                slots.push(rich_sfn(rng, &name, attr));
+            }
+            // hand-made run material
+            30..=49 => {
+                let k = rng.range(1, 4) as usize;
+                for i in 0..k {
+                    let order = match rng.below(6) {
+                        0 => *rng.pick(&[0x41_u8, 0x42, 0x43, 0x01, 0x02, 0x03, 0x14, 0x54, 0x55, 0x5F, 0x40, 0x20, 0x81, 0xFF]),
+                        _ => {
+                            let o = (k - i) as u8;
+                            if i == 0 {
+                                o | 0x40
+                            } else {
+                                o
+                            }
+                        }
+                    };
+                    let c = if rng.chance(1, 8) { rng.below(256) as u8 } else { chk };
+                    let mut s = lfn_slot(order, c, &rand_units13(rng));
+                    if rng.chance(1, 10) {
+                        s[11] = *rng.pick(&[0x0F_u8, 0x1F, 0x2F, 0x3F, 0x4F, 0x8F, 0xCF, 0xFF]);
+                    }
+                    slots.push(s);
+                }
+                if rng.chance(3, 4) {
+                    slots.push(rich_sfn(rng, &name, attr));
+                }
+            }
+            // plain short entry
+            50..=69 => slots.push(rich_sfn(rng, &name, attr)),
+            // deleted (short or long shaped)
+            70..=79 => {
+                let mut s = if rng.chance(1, 2) { rich_sfn(rng, &name, attr) } else { lfn_slot(0xE5, chk, &rand_units13(rng)) };
+                s[0] = 0xE5;
+                slots.push(s);
+            }
+            // label
+            80..=86 => {
+                let a = *rng.pick(&[0x08_u8, 0x28, 0x18, 0x09, 0x0E, 0x48]);
+                slots.push(rich_sfn(rng, &name, a));
+            }
+            // garbage
+            87..=96 => {
+                let mut s: Slot = [0; 32];
+                for b in &mut s {
+                    *b = rng.below(256) as u8;
+                }
+                if rng.chance(1, 3) {
+                    s[11] = *rng.pick(&[0x0F_u8, 0x20, 0x10, 0x08, 0x3F]);
+                }
+                if rng.chance(1, 3) {
+                    s[0] = *rng.pick(&[0x41_u8, 0x01, 0x42, 0x02, 0x05, 0x2E, 0x20, 0xE5]);
+                }
+                slots.push(s);
+            }
+            // end marker (rare) followed by more material
+            _ => {
+                let mut s = rich_sfn(rng, &name, attr);
+                s[0] = 0;
+                slots.push(s);
+            }
+        }
+    }
+    slots.truncate(40.max(target));
+    slots
+}
+
+fn stream_soup(tier: Tier, rng: &mut SplitMix64, img: &mut Img, out: &mut dyn Write) {
+    let n = tier.pick(5_000, 200_000);
+    for i in 0..n {
+        let mut slots = soup(rng);
+        // hit the end-of-stream branch in the cluster chain: exactly 16 / 32 slots, no end marker needed
+        if i % 16 == 0 {
+            let want = if i % 32 == 0 { 16 } else { 32 };
+            while slots.len() < want {
+                let name = rand_sfn_name(rng);
+                slots.push(rich_sfn(rng, &name, 0x20));
+            }
+            slots.truncate(want);
+        }
+        if slots.len() > ROOT_ENTRIES {
+            slots.truncate(ROOT_ENTRIES);
+        }
+        emit_readdir(out, img, &slots, i % 2 == 1);
+        if i % 8 == 0 {
+            emit_readdir(out, img, &slots, i % 2 == 0);
+        }
+    }
+}
+
+fn stream_witnesses(rng: &mut SplitMix64, img: &mut Img, out: &mut dyn Write) {
+    let next = sfn_slot(b"NEXT       ", 0x20);
+    // F17: 20-slot run 0x54, 19, …, 1 → 260 units
+    {
+        let name = *b"LONG260 TXT";
+        let chk = sfn_chk(&name);
+        for fill in [0x41_u16, 0x4E2D] {
+            let mut slots: Vec<Slot> = Vec::new();
+            for k in (1..=20_u8).rev() {
+                let order = if k == 20 { 0x40 | k } else { k };
+                slots.push(lfn_slot(order, chk, &[fill; 13]));
+            }
+            slots.push(sfn_slot(&name, 0x20));
+            slots.push(next);
+            emit_both(out, img, &slots);
+        }
+        // 20 slots, name of exactly 255 / 254 / 256 units (terminated where it fits)
+        for len in [247_usize, 248, 254, 255, 256, 259, 260] {
+            let units: Vec<u16> = (0..len).map(|i| 0x61 + (i % 26) as u16).collect();
+            let mut slots = gen_run(&units, chk);
+            slots.push(sfn_slot(&name, 0x20));
+            slots.push(next);
+            emit_both(out, img, &slots);
+        }
+        // index 21 … 31 are rejected
+        for n in [21_u8, 31] {
+            let mut slots = vec![lfn_slot(0x40 | n, chk, &[0x42; 13])];
+            for k in (1..n).rev() {
+                slots.push(lfn_slot(k, chk, &[0x42; 13]));
+            }
+            slots.push(sfn_slot(&name, 0x20));
+            emit_both(out, img, &slots);
+        }
+    }
+    // F18: abandoned longer run directly followed by a new 0x40 slot
+    {
+        let name = *b"LEAK    TXT";
+        let chk = sfn_chk(&name);
+        let slots = vec![lfn_slot(0x42, chk, &[0x58; 13]), lfn_slot(0x41, chk, &[0x61; 13]), sfn_slot(&name, 0x20), next];
+        emit_both(out, img, &slots);
+        let slots = vec![
+            lfn_slot(0x43, chk, &[0x58; 13]),
+            lfn_slot(0x02, chk, &[0x59; 13]),
+            lfn_slot(0x41, chk, &pattern_units(0, true)),
+            sfn_slot(&name, 0x20),
+            next,
+        ];
+        emit_both(out, img, &slots);
+        // the stale units are padding only: no leak even in the fixed buffer
+        let slots = vec![lfn_slot(0x42, chk, &[0xFFFF; 13]), lfn_slot(0x41, chk, &[0x61; 13]), sfn_slot(&name, 0x20), next];
+        emit_both(out, img, &slots);
+        // a deleted slot / corrupted slot between the two runs clears the buffer
+        let mut del = lfn_slot(0xE5, chk, &[0x5A; 13]);
+        del[0] = 0xE5;
+        let slots = vec![lfn_slot(0x42, chk, &[0x58; 13]), del, lfn_slot(0x41, chk, &[0x61; 13]), sfn_slot(&name, 0x20), next];
+        emit_both(out, img, &slots);
+        let slots =
+            vec![lfn_slot(0x42, chk, &[0x58; 13]), lfn_slot(0x55, chk, &[0x5A; 13]), lfn_slot(0x41, chk, &[0x61; 13]), sfn_slot(&name, 0x20), next];
+        emit_both(out, img, &slots);
+    }
+    // F12: trailing U+FFFF
+    {
+        let name = *b"FFFF    TXT";
+        let chk = sfn_chk(&name);
+        for units in [vec![0x61_u16, 0xFFFF], vec![0xFFFF_u16], vec![0x61_u16; 12].into_iter().chain([0xFFFF]).collect::<Vec<u16>>(), vec![0x61, 0xFFFF, 0xFFFF, 0x62]] {
+            let mut slots = gen_run(&units, chk);
+            slots.push(sfn_slot(&name, 0x20));
+            slots.push(next);
+            emit_both(out, img, &slots);
+        }
+    }
+    // empty directory, end marker first, full root / exactly full cluster chain (end of stream without end marker)
+    {
+        emit_both(out, img, &[]);
+        emit_both(out, img, &[[0_u8; 32], sfn_slot(b"AFTER   END", 0x20)]);
+        let mut slots: Vec<Slot> = Vec::new();
+        for i in 0..ROOT_ENTRIES {
+            let name = rand_sfn_name(rng);
+            let mut s = rich_sfn(rng, &name, 0x20);
+            if i % 7 == 3 {
+                s = lfn_slot(0x41, sfn_chk(&name), &rand_units13(rng));
+                slots.push(s);
+                if slots.len() < ROOT_ENTRIES {
+                    slots.push(rich_sfn(rng, &name, 0x20));
+                }
+            } else {
+                slots.push(s);
+            }
+            if slots.len() >= ROOT_ENTRIES {
+                break;
+            }
+        }
+        slots.truncate(ROOT_ENTRIES);
+        emit_both(out, img, &slots);
+        // a run cut off by the end of the stream
+        let name = *b"CUTOFF  TXT";
+        let chk = sfn_chk(&name);
+        let mut cut: Vec<Slot> = (0..15).map(|i| sfn_slot(&[b'A' + i as u8; 11], 0x20)).collect();
+        cut.push(lfn_slot(0x41, chk, &[0x61; 13]));
+        emit_both(out, img, &cut);
+    }
+    // label handling: label first / label after entries / label with a long name / LFN-attr slot is not a label
+    {
+        let name = *b"MYLABEL    ";
+        let chk = sfn_chk(&name);
+        let slots = vec![sfn_slot(&name, 0x08), sfn_slot(b"FILE    TXT", 0x20)];
+        emit_both(out, img, &slots);
+        let slots = vec![sfn_slot(b"FILE    TXT", 0x20), lfn_slot(0x41, chk, &pattern_units(1, true)), sfn_slot(&name, 0x28), sfn_slot(b"OTHER      ", 0x08)];
+        emit_both(out, img, &slots);
+    }
+}
+
+/// directories with unique, plainly named short entries: every entry's slot range through `Dir::remove`
+fn stream_range(tier: Tier, rng: &mut SplitMix64, img: &mut Img, out: &mut dyn Write) {
+    let n = tier.pick(400, 10_000);
+    for _ in 0..n {
+        let target = rng.range(1, 24) as usize;
+        let mut slots: Vec<Slot> = Vec::new();
+        let mut serial = 0_u32;
+        while slots.len() < target {
+            serial += 1;
+            let mut name = *b"F0000000   ";
+            let digits = format!("{:07}", serial);
+            name[1..8].copy_from_slice(digits.as_bytes());
+            let chk = sfn_chk(&name);
+            let units13 = |rng: &mut SplitMix64| {
+                let mut u = [0_u16; 13];
+                for x in &mut u {
+                    *x = *rng.pick(&[0x78_u16, 0x79, 0x7A, 0x78, 0x79, 0x7A, 0, 0xFFFF]);
+                }
+                u
+            };
+            match rng.below(10) {
+                0..=3 => {
+                    let len = rng.range(1, 40) as usize;
+                    let units: Vec<u16> = (0..len).map(|_| *rng.pick(&[0x78_u16, 0x79, 0x7A])).collect();
+                    let mut run = gen_run(&units, chk);
+                    match rng.below(8) {
+                        0 => {
+                            let i = rng.below(run.len() as u64) as usize;
+                            run[i][13] ^= 0x10;
+                        }
+                        1 => {
+                            let i = rng.below(run.len() as u64) as usize;
+                            run[i][0] = *rng.pick(&[0x41_u8, 0x01, 0x55, 0x42]);
+                        }
+                        2 => {
+                            let i = rng.below(run.len() as u64) as usize;
+                            run[i][0] = 0xE5;
+                        }
+                        _ => {}
+                    }
+                    slots.extend_from_slice(&run);
+                    slots.push(sfn_slot(&name, 0x20));
+                }
+                4..=5 => {
+                    let k = rng.range(1, 3) as usize;
+                    for _ in 0..k {
+                        let order = *rng.pick(&[0x41_u8, 0x42, 0x01, 0x02, 0x43, 0x55]);
+                        slots.push(lfn_slot(order, chk, &units13(rng)));
+                    }
+                    slots.push(sfn_slot(&name, 0x20));
+                }
+                6 => {
+                    let mut s = sfn_slot(&name, 0x20);
+                    s[0] = 0xE5;
+                    slots.push(s);
+                }
+                7 => slots.push(sfn_slot(&name, 0x08)),
+                _ => slots.push(sfn_slot(&name, 0x20)),
+            }
+        }
+        emit_range(out, img, &slots);
+    }
+}
+
+pub fn run(tier: Tier, seed: u64, out: &mut dyn Write) {
+    let mut rng = SplitMix64::new(seed ^ 0x4C46_4E00);
+    let mut img = Img::new();
+    stream_generate(tier, &mut rng.fork(), out);
+    stream_witnesses(&mut rng.fork(), &mut img, out);
+    stream_patterns(tier, &mut rng.fork(), &mut img, out);
+    stream_byte_sweep(tier, &mut img, out);
+    stream_soup(tier, &mut rng.fork(), &mut img, out);
+    stream_range(tier, &mut rng.fork(), &mut img, out);
+}
